@@ -335,6 +335,16 @@ def check_predicates(case):
             continue        # which class a date or an array falls in is not stated; the derived relations below are
         if res[p] != (c == cls):
             raise Violation(d + '%s = %r' % (p, res[p]), res[p], c == cls)
+    if isinstance(v, (bool, int, float)) and v in (0, 1) and not isinstance(v, str):
+        # the same predicate asked twice within one formula, about values that are equal but of different classes (1, TRUE, 1.0): each answer is about its own argument
+        twins = [t for t in ([1, True, 1.0] if v == 1 else [0, False, 0.0]) if type(t) != type(v)]
+        env2 = Env(vars={'v_x': v, 'v_y': twins[0], 'v_z': twins[1]})
+        for p in ('ISNUMBER', 'ISLOGICAL', 'ISTEXT', 'ISNONTEXT', 'ISBLANK'):
+            f2 = '{%s(v_x),%s(v_y),%s(v_z)}' % (p, p, p)
+            r2 = env2.parse(f2)
+            want2 = [{'ISNUMBER': not isinstance(t, bool), 'ISLOGICAL': isinstance(t, bool), 'ISTEXT': False, 'ISNONTEXT': True, 'ISBLANK': False}[p] for t in (v, twins[0], twins[1])]
+            if r2['error'] is not None or r2['result'] != want2 or any(type(b) is not bool for b in r2['result']):
+                raise Violation('%s with v_x = %r, v_y = %r, v_z = %r -> %r, expected %r' % (f2, v, twins[0], twins[1], r2['error'] or r2['result'], want2), r2['error'] or enc(r2['result']), want2)
     if res['ISNONTEXT'] != (not res['ISTEXT']):
         raise Violation(d + 'ISNONTEXT = %r but ISTEXT = %r' % (res['ISNONTEXT'], res['ISTEXT']), res['ISNONTEXT'], not res['ISTEXT'])
     if res['ISERROR'] != (res['ISERR'] or res['ISNA']):
